@@ -87,7 +87,14 @@ def post(recs, ctx):
             bad = rc < 0 or rc in (98, 99)
             return kind, cmd, ('CRASH rc=%d %s' % (rc, r.stderr[-300:].decode('latin1').replace('\n', ' ')[:200])) if bad else 'OK rc=%d' % (0 if rc == 0 else 1), bad
         except subprocess.TimeoutExpired:
-            return kind, cmd, 'HANG', True
+            # a HANG is a verdict only if it is reproducible (the machine may have been busy): once more, with four times the limit
+            try:
+                r = subprocess.run([os.path.join(tdir, cmd[0])] + cmd[1:], capture_output=True, env=env, timeout=120)
+                rc = r.returncode
+                bad = rc < 0 or rc in (98, 99)
+                return kind, cmd, ('CRASH rc=%d %s' % (rc, r.stderr[-300:].decode('latin1').replace('\n', ' ')[:200])) if bad else 'OK rc=%d' % (0 if rc == 0 else 1), bad
+            except subprocess.TimeoutExpired:
+                return kind, cmd, 'HANG', True
     with ThreadPoolExecutor(16) as ex:
         rs = list(ex.map(one, jobs))
     for i, (kind, cmd, res, bad) in enumerate(rs):
